@@ -2,6 +2,7 @@
 (structural necessary conditions only, DESIGN §4 C01)."""
 import re
 from ..core import *
+from . import matchroles
 from .c06 import flag_guarding_call, const_assign_blocks
 
 EXPLANATION = (
@@ -10,7 +11,8 @@ EXPLANATION = (
     "(handle_device_payload, handle_last_will) every flag-consistent path from a successful append to return drains notifications, and the drain loop tracks and reschedules (FreshData) each popped waiter; "
     "(R-C01-conserve) in Router::consume no DataRequest is dropped (drop-elaborated MIR), each ConsumeStatus arm moves the request into exactly one home (requests / skipped_requests / DataLog::park) and pauses with the paired reason; "
     "(R-C01-tryready) the decision table of Tracker::try_ready, enumerated exhaustively by abstract interpretation over its finite enum domain (5 reasons x 4 states), contains the wake-ups delivery depends on, and reschedule() queues the id exactly when try_ready returns Some; "
-    "(R-C01-start) a new subscription's DataRequest starts at next_native_offset() of its own filter; (R-C01-cache) a new filter is added to the topic->filters cache for already cached topics, and DataLog::matches routes through protocol::matches. "
+    "(R-C01-start) a new subscription's DataRequest starts at next_native_offset() of its own filter; (R-C01-cache) a new filter is added to the topic->filters cache for already cached topics, and DataLog::matches routes through protocol::matches; "
+    "(R-C01-match) at the publish-side call sites of protocol::matches(topic, filter) the iterated map's key is passed in the position of its role. "
     "NOT decided: acceptance order = delivery order, once-per-subscription, payload/topic integrity, granted QoS, retention proviso, cursor arithmetic (value/history dependent).")
 ASSUMPTIONS = ["rustc MIR construction is correct", "the scheduler's ready queue is eventually polled (run_inner loop, not analysed for fairness)"]
 TECHNIQUE = "static analysis: who-may-call, flag-sensitive must-pass over the MIR CFG, drop-elaborated-MIR conservation, exhaustive abstract interpretation of a finite-enum decision function, provenance"
@@ -24,13 +26,91 @@ PAUSE_TABLE = {"BufferFull": ("requests", "Busy"), "InflightFull": ("requests", 
                "FilterCaughtup": ("park", None), "PartialRead": ("requests", None), "SkipRequest": ("skipped", None)}
 
 
+def waiters(ctx, prog):
+    """R-C01-waiters: the parking lot itself — take() hands out *all* parked requests whenever there is
+    at least one, register() always parks, DataLog::park parks on the request's own filter"""
+    rule = "R-C01-waiters"
+    from .c15 import switch_on_call_result
+    tk = prog.one(r"^router::waiters::Waiters::<T>::take$")
+    sw = switch_on_call_result(tk, r"VecDeque::<T, A>::is_empty$", "current")
+    nones, somes = [], []
+    for bi, b in enumerate(tk.blocks):
+        for st in b["s"]:
+            if "lhs" in st and st["lhs"]["l"] == 0 and st["rv"]["k"] == "agg" and st["rv"].get("adt") == "std::option::Option":
+                (nones if st["rv"]["var"] == "None" else somes).append(bi)
+    repl = [bb for bb, t in tk.calls() if re.search(r"mem::(replace|take|swap)$", callee_path(t))]
+    if sw and nones and somes and repl and all(dominates(tk, sw[0][1], n) for n in nones) and all(dominates(tk, sw[0][2], s) for s in somes):
+        ctx.ok(rule, tk.id, "returns None only when nothing is parked, otherwise the whole queue (mem::replace)")
+    else:
+        ctx.violation(rule, tk.id, "take shape", "Waiters::take can return None although requests are parked (or no longer hands out the whole queue): those subscribers are never woken", site=tk.fn_loc())
+    rg = prog.one(r"^router::waiters::Waiters::<T>::register$")
+    pushes = [bb for bb, t in rg.calls() if callee_path(t).endswith("VecDeque::<T, A>::push_back") and not rg.is_cleanup(bb)]
+    if pushes and must_pass(rg, [], return_blocks(rg), via_blocks=pushes, include_from=False) is not None and not (reachable(rg, (0,), avoid_blocks=pushes) & set(return_blocks(rg))):
+        ctx.ok(rule, rg.id, "every path parks the request (push_back)")
+    else:
+        ctx.violation(rule, rg.id, "register drops", "Waiters::register can return without parking the request", site=rg.fn_loc())
+    pk = prog.one(r"^router::logs::DataLog::park$")
+    regs = [(bb, t) for bb, t in pk.calls() if callee_path(t).endswith("Waiters::<T>::register") and not pk.is_cleanup(bb)]
+    okp = False
+    for bb, t in regs:
+        src = flatten_src(provenance(pk, t["args"][0], through_calls=[r"Option::<T>::unwrap$", r"Slab::<T>::get_mut$"]))
+        for s in src:
+            if s.kind == "call" and s.path.endswith("Slab::<T>::get_mut"):
+                ks = flatten_src(provenance(pk, s.term["args"][1]))
+                if any(x.kind == "param" and x.l == 3 and x.fields[-1:] == ["filter_idx"] for x in ks):
+                    okp = True
+    if okp and not (reachable(pk, (0,), avoid_blocks=[r[0] for r in regs]) & set(return_blocks(pk))):
+        ctx.ok(rule, pk.id, "parks the request in the waiters of native[request.filter_idx]")
+    else:
+        ctx.violation(rule, pk.id, "parked on the wrong filter", "DataLog::park does not register the request with the waiters of its own filter on every path", site=pk.fn_loc())
+
+
+def advance(ctx, prog):
+    """R-C01-advance: what was read is not read again — after a successful native_readv the request's
+    cursor is set from the read's continuation before the publishes are pushed, on every path"""
+    rule = "R-C01-advance"
+    f = prog.one(r"^router::routing::forward_device_data$")
+    reads = [bb for bb, t in f.calls() if callee_path(t).endswith("DataLog::native_readv") and not f.is_cleanup(bb)]
+    pushes = [bb for bb, t in f.calls() if callee_path(t).endswith("Outgoing::push_forwards") and not f.is_cleanup(bb)]
+    writes = []
+    for bi, b in enumerate(f.blocks):
+        if b.get("cleanup"):
+            continue
+        for st in b["s"]:
+            if "lhs" in st and place_fields(st["lhs"])[-1:] == ["cursor"] and st["lhs"]["l"] == 1 and st["rv"]["k"] == "use":
+                src = flatten_src(provenance(f, st["rv"]["a"], through_calls=[r"ops::Try>::branch$"]))
+                if any(s.kind == "call" and s.path.endswith("DataLog::native_readv") for s in src):
+                    writes.append(bi)
+    if not reads or not pushes:
+        raise AnchorMissing("forward_device_data: native_readv / push_forwards not found")
+    if writes and not (reachable_after(f, reads, avoid_blocks=writes) & set(pushes)):
+        ctx.ok(rule, f.id, "request.cursor = <continuation of native_readv> on every path from the read to push_forwards", site=f.loc(f.blocks[writes[0]]["t"].get("sp")))
+    else:
+        ctx.violation(rule, f.id, "cursor not advanced", "publishes read from the log can be pushed without moving the request's cursor to the read's continuation: they would be delivered again", site=f.loc(f.blocks[pushes[0]]["t"].get("sp")))
+    # the continuation is the `end` of the returned Position, not its `start`
+    for wb in writes[:1]:
+        for st in f.blocks[wb]["s"]:
+            if "lhs" in st and place_fields(st["lhs"])[-1:] == ["cursor"] and st["lhs"]["l"] == 1:
+                src = flatten_src(provenance(f, st["rv"]["a"], through_calls=[r"ops::Try>::branch$"]))
+                ends = [s for s in src if s.kind == "call" and "end" in (s.fields or [])]
+                starts = [s for s in src if s.kind == "call" and "start" in (s.fields or [])]
+                if ends and not starts:
+                    ctx.ok(rule, f.id, "the new cursor is Position::{Next,Done}.end")
+                else:
+                    ctx.violation(rule, f.id, "cursor from Position.start", "the request's cursor is set from the read's start, not its end (fields: %s)" % [s.fields for s in src if s.kind == "call"], site=f.loc(st.get("sp")))
+
+
 def run(ctx):
     prog = ctx.progs["rumqttd"]
+    ctx.guarded("R-C01-waiters", waiters, ctx, prog)
+    ctx.guarded("R-C01-advance", advance, ctx, prog)
     ctx.guarded("R-C01-wake", wake, ctx, prog)
     ctx.guarded("R-C01-conserve", conserve, ctx, prog)
     ctx.guarded("R-C01-tryready", tryready, ctx, prog)
     ctx.guarded("R-C01-start", start, ctx, prog)
     ctx.guarded("R-C01-cache", cache, ctx, prog)
+    ctx.guarded("R-C01-match", matchroles.check, ctx, "R-C01-match", prog, r"^router::logs::DataLog::matches$", "topic -> subscribed filters on publish")
+    ctx.guarded("R-C01-match", matchroles.check, ctx, "R-C01-match", prog, r"^router::logs::DataLog::next_native_offset$", "new filter -> cached topics")
 
 
 # ------------------------------------------------------------------------------------------
@@ -271,6 +351,72 @@ def conserve(ctx, prog):
         ctx.ok(rule, a.id, "every path from requests.pop_front to return passes trackv")
     else:
         ctx.violation(rule, a.id, "pop without trackv", "after popping a request a path returns without Scheduler::trackv", site=a.fn_loc())
+    container_drops(ctx, rule, r)
+
+
+def container_drops(ctx, rule, r):
+    """R-view (drop-elaborated): a VecDeque<DataRequest> that may still hold requests must be moved on
+    (trackv / extend), never dropped on a normal path.  The queue created locally (skipped requests) has
+    no normal-path drop at all; the polled queue may be dropped only where it is known empty or untouched:
+    on paths that reach the drop from forward_device_data only through pop_front() == None."""
+    local_new = set()
+    for bb, t in r.calls():
+        if callee_path(t).endswith("VecDeque::<T>::new") and "VecDeque<router::DataRequest>" in r.local_ty(t["dest"]["l"]):
+            local_new.add(t["dest"]["l"])
+    # follow plain moves of the fresh queue into its named local
+    changed = True
+    while changed:
+        changed = False
+        for b in r.blocks:
+            for st in b["s"]:
+                if "lhs" in st and not st["lhs"].get("p") and st["rv"]["k"] == "use" and op_local(st["rv"]["a"]) in local_new and st["lhs"]["l"] not in local_new:
+                    local_new.add(st["lhs"]["l"])
+                    changed = True
+    fwd = [bb for bb, t in r.calls() if callee_path(t).endswith("routing::forward_device_data") and not r.is_cleanup(bb)]
+    none_targets = []
+    for sw in discr_switches(r, r"Option$|Option<"):
+        src = flatten_src(place_provenance(r, sw[4])) if sw[4] else []
+        if any(s.kind == "call" and s.path.endswith("VecDeque::<T, A>::pop_front") for s in src):
+            nt = variant_target(sw, "None")
+            if nt is not None:
+                none_targets.append(nt)
+    if not fwd or not none_targets:
+        ctx.anchor_missing(rule, "consume (R view): forward_device_data call / pop_front None edge not found (%d/%d)" % (len(fwd), len(none_targets)))
+        return
+    live_after_fwd = reachable(r, fwd, avoid_blocks=tuple(none_targets))
+
+    def on_fresh(t):
+        return any(s.kind == "call" and s.path.endswith("VecDeque::<T>::new") for s in flatten_src(provenance(r, t["args"][0])))
+    fresh_pushes = [bb for bb, t in r.calls() if re.search(r"VecDeque::<T, A>::(push_back|push_front|extend|append)$|Extend<T>>::extend$", callee_path(t)) and not r.is_cleanup(bb) and on_fresh(t)]
+    fresh_none = []
+    for sw in discr_switches(r, r"Option$|Option<"):
+        src = flatten_src(place_provenance(r, sw[4])) if sw[4] else []
+        for s_ in src:
+            if s_.kind == "call" and s_.path.endswith("VecDeque::<T, A>::pop_front") and on_fresh(s_.term):
+                nt = variant_target(sw, "None")
+                if nt is not None:
+                    fresh_none.append(nt)
+    maybe_filled = reachable_after(r, fresh_pushes, avoid_blocks=tuple(fresh_none)) if fresh_pushes else set()
+    n = 0
+    for bi, b in enumerate(r.blocks):
+        t = b["t"]
+        if t["k"] != "drop" or b.get("cleanup") or "VecDeque<router::DataRequest>" not in r.ty(t["ty"]) or t["pl"].get("p"):
+            continue
+        n += 1
+        l = t["pl"]["l"]
+        if l in local_new:
+            if bi in maybe_filled:
+                ctx.violation(rule, r.id, "skipped requests dropped",
+                              "the locally built queue of skipped DataRequests is dropped on a normal path where it may hold requests, instead of being handed back to the tracker: a shared-subscription member that was skipped never reads its group again",
+                              site=r.loc(t.get("sp")))
+            else:
+                ctx.ok(rule, r.id, "fresh queue dropped only where nothing was pushed to it or it was drained (pop_front()==None)", site=r.loc(t.get("sp")))
+        elif bi in live_after_fwd:
+            ctx.violation(rule, r.id, "polled requests dropped",
+                          "the polled request queue is dropped on a path where it may still hold requests", site=r.loc(t.get("sp")))
+        else:
+            ctx.ok(rule, r.id, "polled queue dropped only where it is empty (pop_front()==None) or before any request was taken", site=r.loc(t.get("sp")))
+    ctx.ok(rule, r.id, "%d normal-path drop(s) of VecDeque<DataRequest> examined; fresh queue locals %s have none" % (n, sorted(local_new)), trivial=True)
 
 
 # ------------------------------------------------------------------------------------------
@@ -539,6 +685,15 @@ def cache(ctx, prog):
             getattr(s, "fields", None) and "publish_filters" in s.fields for s in flatten_src(provenance(body, t2["args"][0])))]
         ms = [b for b, t2 in body.calls() if callee_path(t2).endswith("protocol::matches")]
         rets = return_blocks(body)
+        # the new index is pushed for *every* matching cached topic: the push sits inside the
+        # iteration (on a cycle with the map iterator's next()), not after a find()/next()
+        nexts = [b for b, t2 in body.calls() if re.search(r"hash_map::IterMut<.*> as std::iter::Iterator>::next$", callee_path(t2))]
+        pushes = [b for b, t2 in body.calls() if callee_path(t2).endswith("Vec::<T, A>::push") and not body.is_cleanup(b)]
+        in_loop = any(n in reachable_after(body, [p]) and p in reachable_after(body, [n]) for p in pushes for n in nexts)
+        if not in_loop:
+            ctx.violation(rule, body.id, "cache extended for one topic only",
+                          "the new filter index is not pushed inside the loop over all cached topics (publish_filters): only some already-cached topics learn about the new subscription", site=body.loc(t.get("sp")))
+            continue
         if its and ms and must_pass(body, [bb], rets, via_blocks=its):
             ctx.ok(rule, body.id, "new filter is matched against every cached topic (publish_filters.iter_mut + matches)", site=body.loc(t.get("sp")))
         else:
